@@ -10,6 +10,7 @@
 (* EDS summary: [locs : <<[id, prio : u32, w : u32,                        *)
 (*                         eps : <<[addrs : <<str>>, w : u32]>>]>>,        *)
 (*               drops : <<[num : u32, den : Nat]>>]                       *)
+(* (LDS summary and abstract Listener: see the LDS section below.)          *)
 (* RDS summary: [vhs : <<[routes : <<[path : 0..3 (number of path matcher  *)
 (*               fields set), action : "route"|"nonforwarding"|            *)
 (*               "unsupported"|"other", wcs : <<u32>>, csp : BOOLEAN]>>]>>]*)
@@ -106,4 +107,68 @@ AcceptRules(x, skipGap) ==
      /\ \A a, b \in AllEps : a # b => K[a[1]].eps[a[2]].addr # K[b[1]].eps[b[2]].addr
      /\ (skipGap \/ \A p \in 0..(Cardinality(PrioSet) - 1) : p \in PrioSet)
 Accept(x) == AcceptRules(x, FALSE)
+\* ------------------------------------------------------------------ LDS
+(* LDS summary of an accepted listener:
+     [api : BOOLEAN, tcp : BOOLEAN (which of APIListener / TCPListener is set),
+      hcms : <<[filters : <<[name : str, term : BOOLEAN]>>, rcn : BOOLEAN (route config name set),
+                inline : BOOLEAN (inline route configuration set)]>>]
+   hcms: the HTTP connection manager of the api_listener, or those of the default filter chain and of
+   every filter chain kept in the filter chain map.                                               *)
+\* exactly one of APIListener / TCPListener; at least one usable HTTP connection manager
+L_Kind(u) == u.api # u.tcp /\ (u.api => Len(u.hcms) = 1) /\ (u.tcp => Len(u.hcms) >= 1)
+\* A39: the effective HTTP filter list is non-empty, ends in a terminal filter, has no terminal
+\* filter before the end, and has no repeated name
+L_FilterList(fs) == /\ Len(fs) > 0
+                    /\ fs[Len(fs)].term
+                    /\ \A i \in 1..(Len(fs) - 1) : ~fs[i].term
+                    /\ \A i, j \in 1..Len(fs) : i < j => fs[i].name # fs[j].name
+L_Filters(u) == \A h \in 1..Len(u.hcms) : L_FilterList(u.hcms[h].filters)
+\* exactly one route specifier
+L_Route(u) == \A h \in 1..Len(u.hcms) : u.hcms[h].rcn # u.hcms[h].inline
+InvLDS(u) == L_Kind(u) /\ L_Filters(u) /\ L_Route(u)
+
+(* abstract Listener:
+     y = [name : BOOLEAN, side : "api" | "server",
+          filters : <<[kind : "router" (terminal, both sides) | "fault" (client side only) |
+                              "rbac" (server side only) | "unknown" (no implementation registered),
+                       opt : BOOLEAN (is_optional), nm : 0..3 (0: empty name)]>>,
+          route : "rds" | "inline" | "none" | "noname" (rds without route_config_name),
+          chain : "fc" | "default" | "both" | "none" (server side: where the HCM is placed)]    *)
+Usable(f, side) == CASE f.kind = "router" -> TRUE
+                     [] f.kind = "fault"  -> side = "api"
+                     [] f.kind = "rbac"   -> side = "server"
+                     [] OTHER             -> FALSE
+\* declarative: the effective list is the sub-list of usable filters
+KeptFilters(y) == LET P(f) == Usable(f, y.side) IN SelectSeq(y.filters, P)
+HcmSummary(y) == [filters |-> [i \in 1..Len(KeptFilters(y)) |->
+                                 [name |-> KeptFilters(y)[i].nm, term |-> KeptFilters(y)[i].kind = "router"]],
+                  rcn |-> y.route = "rds", inline |-> y.route = "inline"]
+SummaryL(y) == [api |-> y.side = "api", tcp |-> y.side = "server",
+                hcms |-> IF y.side = "api" THEN <<HcmSummary(y)>>
+                         ELSE CASE y.chain = "both" -> <<HcmSummary(y), HcmSummary(y)>>
+                                [] y.chain = "none" -> <<>>
+                                [] OTHER -> <<HcmSummary(y)>>]
+\* the documented validation (A39 / A36), operationally: filters are processed in order; an
+\* unusable filter is skipped when optional and fatal otherwise; names must be non-empty and unique
+\* among all filters; then the EFFECTIVE list must be non-empty and end in its only terminal filter.
+\* emptyOnInput = TRUE checks emptiness on the input list instead (negative control).
+RECURSIVE ProcFilters(_, _, _, _, _)
+ProcFilters(fs, side, i, kept, seen) ==     \* <<ok, kept>>
+  IF i > Len(fs) THEN <<TRUE, kept>>
+  ELSE LET f == fs[i] IN
+       IF f.nm = 0 \/ f.nm \in seen THEN <<FALSE, kept>>
+       ELSE IF ~Usable(f, side) THEN (IF f.opt THEN ProcFilters(fs, side, i + 1, kept, seen \cup {f.nm})
+                                      ELSE <<FALSE, kept>>)
+       ELSE ProcFilters(fs, side, i + 1, Append(kept, f), seen \cup {f.nm})
+AcceptRulesL(y, emptyOnInput) ==
+  LET r == ProcFilters(y.filters, y.side, 1, <<>>, {})
+      k == r[2]
+  IN /\ y.name
+     /\ y.route \in {"rds", "inline"}
+     /\ (y.side = "server" => y.chain # "none")
+     /\ r[1]
+     /\ (IF emptyOnInput THEN Len(y.filters) > 0 ELSE Len(k) > 0)
+     /\ \A i \in 1..(Len(k) - 1) : k[i].kind # "router"
+     /\ (Len(k) > 0 => k[Len(k)].kind = "router")
+AcceptL(y) == AcceptRulesL(y, FALSE)
 ====
